@@ -291,3 +291,51 @@ as a mismatch: AllMatches drops the site, BestMatch reports 3 errors for a budge
 		},
 	})
 }
+
+func init() {
+	register(&Rule{
+		ID: "OBL", Props: []string{"C10"}, Min: 1,
+		Doc: `"every reported span … its reported error count equals the edit distance between the pattern and that span": the C automaton honours the obligatory positions (#): no error on them. The Go
+re-alignment of an indel hit (LocatePatternFunc fed by ApatPattern.accepts) works on the compiled pattern masked by PATMASK, which drops the obligatory bit: unless the Go side of pkg/obiapat reads that
+information somewhere (the constant OBLIBIT or the field omask of the C pattern), the re-alignment may place an error on an obligatory position — the span and the error count reported contradict the
+pattern (GGGCAATCCTGAGCCAG# reported on gggcaatcctgagccaT with 1 error, where the automaton found the occurrence with 2).`,
+		Run: func(c *Ctx, s *Sink) {
+			p := c.Pkg("pkg/obiapat")
+			if p == nil {
+				s.Undecided(nil, "pkg/obiapat", 0, "package not loaded")
+				return
+			}
+			info := p.TypesInfo
+			key := "pkg/obiapat.(ApatPattern).accepts:obligatory-positions-reach-the-re-alignment"
+			var realign token.Pos
+			reads := false
+			for _, f := range p.Syntax {
+				ast.Inspect(f, func(n ast.Node) bool {
+					switch x := n.(type) {
+					case *ast.CallExpr:
+						if fn := callee(info, x); fn != nil && strings.HasPrefix(fn.Name(), "LocatePattern") && !realign.IsValid() {
+							realign = x.Pos()
+						}
+					case *ast.Ident:
+						if strings.Contains(x.Name, "OBLIBIT") {
+							reads = true
+						}
+					case *ast.SelectorExpr:
+						if x.Sel.Name == "omask" {
+							reads = true
+						}
+					}
+					return true
+				})
+			}
+			switch {
+			case !realign.IsValid():
+				s.Pass(nil, key, 0, "the Go side does not re-align the hits")
+			case reads:
+				s.Pass(nil, key, realign, "the Go side reads the obligatory positions of the compiled pattern")
+			default:
+				s.Fail(nil, key, realign, "the hits of a pattern with indels are re-aligned in Go against the compiled pattern masked by PATMASK and nothing on the Go side reads the obligatory bit (OBLIBIT) or omask: the re-alignment may put an error on an obligatory position — obiannotate --pattern 'GGGCAATCCTGAGCCAG#' --pattern-error 2 --allows-indels reports pattern_match gggcaatcctgagccat, 1 error, on ttttgggcaatcctgagccattgcccc, where the automaton found the occurrence [4,23) with 2 errors")
+			}
+		},
+	})
+}
